@@ -144,6 +144,8 @@ def check(ctx, rep):
     trans_rule(ctx, rep, [c for c in prog.subclasses(P_.fut, strict=True)], P_.dispatch, P_.lock)
     from .c02 import dispatch_rule
     dispatch_rule(ctx, rep)
+    from .c02 import reentry_rule
+    reentry_rule(ctx, rep)
 
     # ---- delegate callbacks of _Future subclasses: methods registered on a delegate by the class itself
     n = 0
